@@ -156,7 +156,20 @@ pub fn parse_conf(conf: &str, filename: &str) -> Result<ConfigNode, ConfigError>
     }
 
     // Parses the main section
-    parse_section("server", &mut lines, filename, 0)
+    let server = parse_section("server", &mut lines, filename, 0)?;
+
+    // Only blank lines and comments may follow the `server` section, anything else means the braces are unbalanced
+    while let Some(line) = lines.next() {
+        if !clean_up(line).is_empty() {
+            return Err(ConfigError::new(
+                "Unexpected content after the end of the `server` section",
+                filename,
+                lines.current_line(),
+            ));
+        }
+    }
+
+    Ok(server)
 }
 
 /// Recursively parses a section of the configuration.
@@ -295,6 +308,17 @@ fn include(
 
             let mut iter = TracebackIterator::from(buf.lines());
             let parsed_node = parse_section("temp_included_section", &mut iter, path, depth)?;
+
+            // The closing brace appended above must be the one which ends the section, otherwise the file has
+            //   an unmatched closing brace of its own and the rest of it would be silently ignored
+            let closing_line = iter.current_line();
+            if iter.next().is_some() {
+                return Err(ConfigError::new(
+                    "Unexpected `}` in included file",
+                    path,
+                    closing_line,
+                ));
+            }
 
             match parsed_node {
                 ConfigNode::Section(_, children) => Ok(children),
